@@ -1,7 +1,120 @@
 import Mutagen.Driver.Util
+import Mutagen.Model.Coalescer
 namespace Mutagen.Driver.C31
+open Mutagen.Driver Mutagen.Model.Coalescer
 
-/-- Model-side handler for one line of the C31 correspondence stream. -/
-def handle (_line : String) : String := "unimplemented"
+/-!
+Line: `<window> <mode> <event> … = <observed…>` — one execution of the real
+Coalescer under a virtual clock (testing/synctest), times in nanoseconds
+since `NewCoalescer`, non-decreasing.
+
+* mode `A`: a consumer goroutine receives from `Signals()` all the time; the
+  observation is the list of arrival times;
+* mode `D`: nobody receives except the explicit drains; the observation is
+  the list of drain results (`1` a signal was buffered, `0` not).
+
+Events: `s<t>` `Strobe()` at time `t`; `d<t>` non-blocking receive at `t`
+(after the loop has settled); `t<t>` `Terminate()` at `t`.
+
+The harness only acts when every goroutine is blocked, and virtual time only
+advances then, so between two harness events the loop has processed every
+timer expiry (`tick; expire; deliver`, plus `recv` in mode A). An event that
+happens exactly at the timer's deadline races with the expiry: the model
+explores both orders (a set of configurations) and prints the outcome that
+equals the observed one if there is one, else the first.
+-/
+
+structure Cfg where
+  s : State
+  out : List String  -- reversed
+  deriving BEq
+
+def runActs (s : State) (as : List Action) : Option State := run s as
+
+/-- Let the armed timer expire (if it does so before `t`, or at `t` when
+`incl`), the loop deliver and – in mode A – the consumer receive; then let
+time pass up to `t`. -/
+def advance (active : Bool) (c : Cfg) (t : Nat) (incl : Bool) : Option Cfg := do
+  let c1 ← match c.s.deadline with
+    | some dl =>
+      if dl < t ∨ (incl ∧ dl = t) then do
+        let s1 ← runActs c.s [.tick (dl - c.s.now), .expire, .deliver]
+        if active ∧ 0 < s1.sig then do
+          let s2 ← step s1 .recv
+          pure { s := s2, out := toString dl :: c.out }
+        else pure { c with s := s1 }
+      else pure c
+    | none => pure c
+  let s2 ← step c1.s (.tick (t - c1.s.now))
+  pure { c1 with s := s2 }
+
+def atDeadline (c : Cfg) (t : Nat) : Bool := c.s.deadline == some t
+
+/-- All configurations after one harness event. -/
+def event (active : Bool) (c : Cfg) (tok : String) : Option (List Cfg) :=
+  match tok.toList with
+  | 's' :: rest => do
+    let t ← (String.ofList rest).toNat?
+    let strobeIn (c : Cfg) : Option Cfg := do
+      let s ← if c.s.exited then step c.s .strobeDone else step c.s .strobe
+      pure { c with s := s }
+    let c1 ← advance active c t true
+    let a ← strobeIn c1
+    if atDeadline c t then do
+      -- the strobe wins the race against the timer branch
+      let c2 ← advance active c t false
+      let s2 ← step c2.s .expire
+      let b ← strobeIn { c2 with s := s2 }
+      pure [a, b]
+    else pure [a]
+  | 'd' :: rest => do
+    let t ← (String.ofList rest).toNat?
+    let c1 ← advance active c t true
+    if active then pure [c1]
+    else if 0 < c1.s.sig then do
+      let s2 ← step c1.s .recv
+      pure [{ s := s2, out := "1" :: c1.out }]
+    else pure [{ c1 with out := "0" :: c1.out }]
+  | 't' :: rest => do
+    let t ← (String.ofList rest).toNat?
+    let term (c : Cfg) : Option Cfg := do
+      let s1 ← step c.s .terminate
+      let s2 ← if s1.exited then pure s1 else step s1 .exit
+      pure { c with s := s2 }
+    let c1 ← advance active c t true
+    let a ← term c1
+    if atDeadline c t then do
+      let c2 ← advance active c t false
+      let b ← term c2
+      pure [a, b]
+    else pure [a]
+  | _ => none
+
+def runAll (active : Bool) : List Cfg → List String → Option (List Cfg)
+  | cs, [] =>
+    -- the harness lets a still-armed timer expire before it shuts down
+    cs.mapM fun c => advance active c (c.s.now + c.s.window + 1) true
+  | cs, tok :: toks => do
+    let next ← cs.mapM fun c => event active c tok
+    runAll active next.flatten.eraseDups toks
+
+def render (c : Cfg) : String :=
+  if c.out.isEmpty then "-" else " ".intercalate c.out.reverse
+
+def handle (line : String) : String :=
+  match fields line with
+  | w :: mode :: rest =>
+    -- `if window < 0 { window = 0 }`
+    match w.toInt?.map Int.toNat, (mode == "A" || mode == "D") with
+    | some w, true =>
+      let evs := rest.takeWhile (· ≠ "=")
+      let observed := " ".intercalate (rest.dropWhile (· ≠ "=") |>.drop 1)
+      match runAll (mode == "A") [{ s := init w, out := [] }] evs with
+      | some cs =>
+        let outs := cs.map render
+        if outs.contains observed then observed else outs.headD "no-run"
+      | none => "not-enabled"
+    | _, _ => "bad-line"
+  | _ => "bad-line"
 
 end Mutagen.Driver.C31
